@@ -538,12 +538,105 @@ class Canonicaliser:
             return
         self.busy.add(id(fn))
         try:
+            if cls is not None:
+                self.unroll_table_loops(fn, cls)
             fn.body = self.block(fn.body, modname, cls, fn)
             self.expr_inline(fn, modname, cls)
             self.simplify_function(fn, modname, cls)
         finally:
             self.busy.discard(id(fn))
             self.done.add(id(fn))
+
+    def unroll_table_loops(self, fn, cls):
+        """`for name in self.TABLE:` / `for name, row in self.TABLE.items():` over a class-level literal table (a dict with
+        constant keys, a list / tuple of constants; at most 8 entries) whose body names attributes through the loop
+        variable (setattr / getattr): the loop is written out, one copy of the body per entry with the constants in place —
+        `setattr(self, name, v)` then reads `self.<entry> = v`. Loops with break / continue / else are left alone."""
+        from .astutil import fold_static
+        me = self
+
+        def table_of(e):
+            if isinstance(e, ast.Call) and isinstance(e.func, ast.Attribute) and e.func.attr in ("items", "keys", "values") \
+                    and not e.args and not e.keywords:
+                t, how = table_of(e.func.value)
+                return (t, e.func.attr) if (how == "iter" and isinstance(t, ast.Dict)) else (None, None)
+            if isinstance(e, ast.Attribute) and isinstance(e.value, ast.Name) and e.value.id in ("self", "cls") \
+                    and e.attr.isupper():
+                try:
+                    _k, t = me.pm._class_const(cls, e.attr)
+                except Exception:
+                    t = None
+                if isinstance(t, ast.Dict) and t.keys and len(t.keys) <= 8 and all(isinstance(k_, ast.Constant) for k_ in t.keys):
+                    return t, "iter"
+                if isinstance(t, (ast.List, ast.Tuple)) and t.elts and len(t.elts) <= 8 \
+                        and all(isinstance(x_, ast.Constant) for x_ in t.elts):
+                    return t, "iter"
+            return None, None
+
+        def rows(t, how, target):
+            """per entry: {loop variable: expression} or None"""
+            if isinstance(t, ast.Dict):
+                if how in ("iter", "keys"):
+                    return [{target.id: k_} for k_ in t.keys] if isinstance(target, ast.Name) else None
+                if how == "values":
+                    src = list(t.values)
+                    pairs = None
+                else:
+                    src, pairs = None, list(zip(t.keys, t.values))
+                if pairs is not None:
+                    if not (isinstance(target, ast.Tuple) and len(target.elts) == 2 and isinstance(target.elts[0], ast.Name)):
+                        return None
+                    out = []
+                    for k_, v_ in pairs:
+                        m = {target.elts[0].id: k_}
+                        tv = target.elts[1]
+                        if isinstance(tv, ast.Name):
+                            m[tv.id] = v_
+                        elif isinstance(tv, ast.Tuple) and isinstance(v_, ast.Tuple) and len(tv.elts) == len(v_.elts) \
+                                and all(isinstance(x_, ast.Name) for x_ in tv.elts):
+                            m.update({x_.id: y_ for x_, y_ in zip(tv.elts, v_.elts)})
+                        else:
+                            return None
+                        out.append(m)
+                    return out
+            else:
+                src = list(t.elts)
+            if isinstance(target, ast.Name):
+                return [{target.id: v_} for v_ in src]
+            return None
+
+        def visit(stmts):
+            out = []
+            for st in stmts:
+                for fld in ("body", "orelse", "finalbody"):
+                    if isinstance(getattr(st, fld, None), list) and not isinstance(st, (ast.FunctionDef, ast.ClassDef)):
+                        setattr(st, fld, visit(getattr(st, fld)))
+                if isinstance(st, ast.For) and not st.orelse and not any(
+                        isinstance(x, (ast.Break, ast.Continue, ast.Yield, ast.YieldFrom)) for x in ast.walk(st)):
+                    t, how = table_of(st.iter)
+                    if t is not None:
+                        rs = rows(t, how, st.target)
+                        vars_ = set().union(*[set(r) for r in rs]) if rs else set()
+                        names_attrs = any(
+                            isinstance(c, ast.Call) and isinstance(c.func, ast.Name) and c.func.id in ("setattr", "getattr")
+                            and len(c.args) >= 2 and any(isinstance(x, ast.Name) and x.id in vars_ for x in ast.walk(c.args[1]))
+                            for c in ast.walk(st))
+                        rebinds = any(isinstance(x, ast.Name) and x.id in vars_ and isinstance(x.ctx, ast.Store)
+                                      for b in st.body for x in ast.walk(b))
+                        if rs and names_attrs and not rebinds:
+                            for r in rs:
+                                copy_ = ast.Module(body=[substitute_stmt(b, r) for b in st.body], type_ignores=[])
+                                copy_ = fold_static(copy_)
+                                for b in copy_.body:
+                                    for x in ast.walk(b):
+                                        if hasattr(x, "lineno") or isinstance(x, (ast.expr, ast.stmt)):
+                                            ast.copy_location(x, st)
+                                    out.append(b)
+                            me.stats["table_loops_unrolled"] = me.stats.get("table_loops_unrolled", 0) + 1
+                            continue
+                out.append(st)
+            return out
+        fn.body = visit(fn.body)
 
     # -- what inlining leaves behind
     def simplify_function(self, fn, modname, cls):
